@@ -1,7 +1,18 @@
-//! Conformance drivers (pv-immutable). Sub-commands are added per property.
+//! Conformance drivers for the immutable-DB reader of pallas-hardano (C42, C43).
+mod c42;
+mod c43;
+mod files;
+
+#[global_allocator]
+static ALLOC: c43::guard::Guard = c43::guard::Guard;
+
 fn main() {
     let args = pv_core::Args::parse();
     match args.cmd.as_str() {
+        "imm-prepare" => c42::prepare(&args),
+        "imm-replay" => c42::replay(&args),
+        "imm-fault" => c43::parent(&args),
+        "imm-fault-child" => c43::child(&args),
         other => pv_core::die(&format!("unknown sub-command {other}")),
     }
 }
